@@ -87,6 +87,30 @@ def run(ctx):
                         if cell_term(r.ret, vi['lanes'][i][0], esz) is not a:
                             bad = 'lane %d is not the splat argument' % i
                 done('R-CTOR', name, bad, it)
+            elif (not tr and mname in ('from_array', 'to_array')) or (tr == 'From' and body['argc'] == 1 and mname == 'from'):
+                # arrays and tuples: element i <-> lane i, moved bit for bit (From<[T; N]>, From<(T, ..)>, and the reverse directions)
+                aty0 = strip_ref(F, argtys[0])[0]
+                src_v, dst_v = vec_info(F, aty0), vec_info(F, rty)
+                other = rty if src_v is not None and dst_v is None else (aty0 if dst_v is not None and src_v is None else None)
+                if other is None:
+                    continue              # vector <-> vector conversions are C14's
+                ot = F.types[other]
+                hid_o = set(hidden_offsets(F, other))
+                ol = [(o, sz_) for (o, sz_, lt) in leaves_plain(F, other) if o not in hid_o]
+                if ot.get('k') not in ('array', 'tuple') or len(ol) != N or any(sz_ != esz for (o, sz_) in ol):
+                    continue              # not the N-element array / tuple of the element type (e.g. From<BVec>, From<(Vec2, f32)>): C14 / C15
+                r = H.run(it['key'])
+                bad = r.abort
+                if not bad:
+                    for i in range(N):
+                        if src_v is not None:
+                            got, exp = cell_term(r.ret, ol[i][0], esz), ArgView(F, r, 0, argtys[0]).lanes[i]
+                        else:
+                            got, exp = cell_term(r.ret, vi['lanes'][i][0], esz), atom_at(r, 0, ol[i][0])
+                        if got is None or got is not exp:
+                            bad = 'element %d is %s, expected element / lane %d unchanged' % (i, tm.show(got, 0, 3)[:100] if got is not None else None, i)
+                            break
+                done('R-READ' if src_v is not None else 'R-CTOR', name, bad, it)
             elif not tr and mname == 'from_slice':
                 r = H.run(it['key'])
                 bad = r.abort
